@@ -579,6 +579,9 @@ class Ev:
             r = self.apply_closure(args[1], [args[0]])
             if r is not None:
                 return r
+        # x.map(path::to::function): the function applied to the payload
+        if len(args) == 2 and strip_generics(path) in ("core::option::Option::map", "core::result::Result::map") and isinstance(args[1], tuple) and args[1] and args[1][0] == "fnref":
+            return ("call", args[1][1], (args[0],), (self.fn.path, b))
         if f.get("trait") == "core::cmp::PartialEq" and len(args) == 2:
             r = fold_bin("Eq" if f.get("trait_method") == "eq" else "Ne", args[0], args[1])
             if r is not None:
